@@ -113,6 +113,7 @@ def verify_parallel(E, target, timeout_ms, props_name, nproc=None, here=None, gr
             chunks = [frontier[i::k] for i in range(k)]
             for ch in chunks:
                 tasks.append((target, ci, ch, timeout_ms, props_name, ground))
+    n_refuted = 0
     if tasks:
         ctx = mp.get_context('spawn')
         with ctx.Pool(min(nproc, max(len(tasks), 4)), initializer=_init, initargs=(E.repo.root, here)) as pool:
@@ -134,6 +135,13 @@ def verify_parallel(E, target, timeout_ms, props_name, nproc=None, here=None, gr
                     if stop_at_first_failure and (out['undecided'] or any(r.get('result') != 'discharged' for r in out['items'])):
                         # canary mode: one failing obligation is all that is needed
                         pool.terminate()
+                        return info, records, undecided, errors, paths
+                    n_refuted += sum(1 for r in out['items'] if r.get('result') == 'refuted')
+                    if n_refuted >= 8:
+                        # the function is definitely broken (several obligation instances have counter-models): the verdict
+                        # cannot improve by exploring the remaining paths; stop instead of spending minutes on them
+                        pool.terminate()
+                        undecided.append(('exploration of %s stopped after %d refuted obligation instances' % (target, n_refuted), None))
                         return info, records, undecided, errors, paths
                     fr = out.get('frontier') or []
                     if fr:
